@@ -1043,6 +1043,10 @@ class Interp:
                         return items[key]
                     except IndexError:
                         raise Raised('IndexError', h.version, e.lineno)
+            if isinstance(base, Ref) and h.objs[base.name]['__class__'] in h.module.classes:
+                gi_ = h.module.method(h.objs[base.name]['__class__'], '__getitem__')
+                if gi_ is not None:
+                    return self.call(Closure(gi_.node, {}, base, gi_.cls), [key])          # obj[key]: the class's own __getitem__
             raise AnalysisError('heap model: subscript %s' % norm(e))
         if isinstance(e, ast.Call):
             return self.ev_call(e, env, cls)
@@ -2374,6 +2378,12 @@ class Interp:
                             del h.items(base)[k_]
                         except IndexError:
                             raise Raised('IndexError', h.version, st.lineno)
+                        continue
+                    if isinstance(base, Ref) and h.objs[base.name]['__class__'] in h.module.classes and h.objs[base.name]['__class__'] != 'dict':
+                        di_ = h.module.method(h.objs[base.name]['__class__'], '__delitem__')
+                        if di_ is None:
+                            raise AnalysisError('heap model: del %s' % norm(t))
+                        self.call(Closure(di_.node, {}, base, di_.cls), [self.ev(t.slice, env, cls)])          # del obj[key]: the class's own __delitem__
                         continue
                     h.dict_del(base, self.ev(t.slice, env, cls), st.lineno)
                 elif isinstance(t, ast.Name):
